@@ -469,6 +469,13 @@ fn parse_asn(s: &str) -> Result<Asn, String> {
 }
 
 fn extract_filter_kind(filter: MatchedParam) -> Result<FilterKind, String> {
+    // Asn::from_str and Community::from_str slice their input at fixed byte
+    // offsets and panic inside a multi-byte character. No ASN or community
+    // syntax contains non-ASCII characters.
+    if !filter.value().is_ascii() {
+        return Err(format!("Invalid non-ASCII value in filter '{}'", filter));
+    }
+
     let extracted_filter = match filter {
         MatchedParam::Family("as_path", v) => {
             let mut asns = Vec::new();
